@@ -265,7 +265,7 @@ func (x *xl) simple(s ast.Stmt) ([]string, error) {
 							return nil, err
 						}
 						return append(b, fmt.Sprintf("let %s := (%s ++ %s)", n, n, v)), nil
-					case sel.Sel.Name == "WriteRune" && len(c.Args) == 1:
+					case (sel.Sel.Name == "WriteRune" || sel.Sel.Name == "WriteByte") && len(c.Args) == 1: // WriteByte: an ASCII byte is a character
 						b, v, err := x.expr(c.Args[0])
 						if err != nil {
 							return nil, err
